@@ -584,7 +584,7 @@ pub fn exec(w: &[&str], obs: &mut Obs) -> Option<String> {
                 obs.count("tape:with-expectation");
                 if r != *expect { obs.violation("value-of", &case(), &format!("tape path {} reference {}", r, expect)); }
                 // L3: the reader path over the same bytes yields an equal value
-                let (x, _) = run_reader(enc, &ty, TokenReader::new(&data[..]));
+                let (x, _) = run_reader(enc, &ty, TokenReader::from_slice(&data));
                 if x != r { obs.violation("paths-disagree", &case(), &format!("tape {} reader {}", r, x)); }
             }
             Some(r)
@@ -605,8 +605,11 @@ pub fn exec(w: &[&str], obs: &mut Obs) -> Option<String> {
             let (c, full) = run_reader(enc, &ty, TokenReader::builder().buffer_len(cap).build(sched::SchedReader::new(&data, steps)));
             if full { obs.count("stream:chunked-buffer-full"); }
             else if c != r { violation(obs, "stream-chunking", format!("slice reader {} chunked {}", r, c)); }
-            let (d, _) = run_reader(enc, &ty, TokenReader::new(&data[..]));
-            if d != r { violation(obs, "stream-chunking", format!("slice reader {} default reader {}", r, d)); }
+            // the default 32 KiB reader as well (a quarter of the cases: allocating the buffer dominates the run)
+            if data.len() % 4 == 0 {
+                let (d, _) = run_reader(enc, &ty, TokenReader::new(&data[..]));
+                if d != r { violation(obs, "stream-chunking", format!("slice reader {} default reader {}", r, d)); }
+            }
             if let Some(kind) = expect.strip_prefix('!') {
                 let s = run_slice(enc, &ty, &data);
                 if s != r { obs.violation(kind, &case(), &format!("reader {} tape {}", r, s)); } else { obs.count(&format!("probe-agrees:{}", kind)); }
@@ -707,7 +710,7 @@ pub fn gen(g: &mut Gen) {
         }
     }
     // 1. well-formed save-style documents x layouts x encodings x target types
-    let n = g.budget(30_000, 300_000);
+    let n = g.budget(15_000, 180_000);
     let cfg = DocCfg::save_style();
     for i in 0..n {
         let mut doc = gen_doc(&mut g.rng, &cfg);
@@ -726,7 +729,7 @@ pub fn gen(g: &mut Gen) {
         }
     }
     // 2. documents with operators: Property capture (operators on any field, first fields included since the F9 repair)
-    let n = g.budget(6_000, 60_000);
+    let n = g.budget(3_000, 36_000);
     let cfg_ops = DocCfg { operators: true, ..DocCfg::save_style() };
     for _ in 0..n {
         let mut doc = gen_doc(&mut g.rng, &cfg_ops);
@@ -746,7 +749,7 @@ pub fn gen(g: &mut Gen) {
         emit_spec(g, enc, &ty, &doc, expect.as_deref());
     }
     // 3. malformed stream: mutations of rendered documents, random text; no expectation, correspondence only
-    let n = g.budget(12_000, 120_000);
+    let n = g.budget(6_000, 72_000);
     for _ in 0..n {
         let doc = gen_doc(&mut g.rng, &DocCfg { max_fields: 4, ..DocCfg::text_full() });
         let base = render_layout(&mut g.rng, &LayoutCfg::reader_safe(), &lexemes(&doc));
@@ -758,7 +761,7 @@ pub fn gen(g: &mut Gen) {
         emit_pair(g, enc, &ty, &data, None);
     }
     // 4. real derived structs against the Ty interpreter
-    let n = g.budget(5_000, 50_000);
+    let n = g.budget(2_500, 30_000);
     for i in 0..n {
         let enc = if i % 2 == 0 { Enc::W } else { Enc::U };
         if i % 4 == 3 {
